@@ -535,6 +535,13 @@ nfa, with no epsilon transition
         False
 
         """
+        if not self._start_state or not self.is_deterministic():
+            # Exchanging final and non-final states is only correct on a
+            # deterministic automaton with a start state
+            dfa = self._to_deterministic_internal(True)
+            for symbol in self._input_symbols:
+                dfa.add_symbol(symbol)
+            return dfa.get_complement()
         enfa = self.copy()
         trash = State("TrashNode")
         enfa.add_final_state(trash)
